@@ -15,9 +15,10 @@ Theorem di_source_programs_keep_DInv d : DInv d -> h_net (hs d) = [] -> has LNon
   (forall e n dir re, DInv (dst_of (run_dmethod dsrc_remove_node_from_edge [e; n] [re] dir [] [] d))) /\
   (forall b, DInv (dst_of (run_dmethod dsrc_clear [] [b] DirInvalid [] [] d))) /\
   (forall tl hd idx a, idx <> Some LNone ->
-     DInv (dst_of (run_dmethod_e dsrc_add_edge_guards1 dsrc_add_edge_guards2 dsrc_add_edge tl hd idx a d))).
+     DInv (dst_of (run_dmethod_e dsrc_add_edge_guards1 dsrc_add_edge_guards2 dsrc_add_edge tl hd idx a d))) /\
+  (forall n strong re, DInv (dst_of (run_dmethod dsrc_remove_node [n] [strong; re] DirInvalid [] [] d))).
 Proof.
-  intros I Hn HN. split; [|split; [|split; [|split; [|split; [|split]]]]].
+  intros I Hn HN. split; [|split; [|split; [|split; [|split; [|split; [|split]]]]]].
   - intros n a. rewrite (d_add_node_is_source n a d I). apply DInv_add_node_body. exact I.
   - intros e n dir. rewrite (d_add_node_to_edge_is_source e n dir d I). apply DInv_add_node_to_edge. exact I.
   - intro e. rewrite (d_remove_edge_is_source e d I). apply DInv_remove_edge. exact I.
@@ -25,4 +26,5 @@ Proof.
   - intros e n dir re. rewrite (d_remove_node_from_edge_is_source e n dir re d I). apply DInv_remove_node_from_edge. exact I.
   - intro b. rewrite (d_clear_is_source b d Hn). apply DInv_clear. exact I.
   - intros tl hd idx a Hi. rewrite (d_add_edge_is_source tl hd idx a d I Hi HN). apply DInv_add_edge. exact I.
+  - intros n st re. rewrite (d_remove_node_is_source n st re d I). apply DInv_remove_node. exact I.
 Qed.
